@@ -11,6 +11,17 @@ def src_of(case):
     return case.get("src", "")
 
 
+# C01-N34: a class with a computed member key and a direct eval inside the class body
+N34_RE = re.compile(r"\bclass\b[^{]*\{.*?(?:\]\s*(?:\(|=)).*?\beval\s*\(", re.S)
+
+
+def pred_n34(case, record, expected_text):
+    obs = record.get("obs", "")
+    m = re.match(r"crash=(\d+)", obs)
+    crash = int(m.group(1)) if m else 0
+    return crash == 1 and "runtime.boundsError" in obs and "index out of range" in obs and bool(N34_RE.search(src_of(case)))
+
+
 def candidates(case):
     """source-level shrinking: drop a line, then drop a top-level ;-separated chunk"""
     src = src_of(case)
@@ -129,7 +140,7 @@ CFG = {
         "builtins, the parser and the lexer are covered only by the crash search, not by proof",
         "an instruction kind missing from the table makes the verifier skip the body (reported as coverage gap)",
     ],
-    "predicates": {},
+    "predicates": {"C01.anonymous_class_computed_key_with_direct_eval_in_member": pred_n34},
     "manifest": {
         "text": ("translation validation, partial: a bytecode verifier (work-list abstract interpretation of operand-stack height, stack "
                  "locals, variadic markers and the try stack) is proved sound in Rocq against a small-step model of the VM's stack "
